@@ -6,7 +6,7 @@ CONSTANTS
   ExportOn = TRUE
   SampleMod = 40
   TimeoutOdds = 1
-  MByz = {}
+  MByz = {1}
   Ks = {0, 1}
 INIT MInit
 NEXT MNext
